@@ -67,10 +67,30 @@ class TaintEngine(Engine):
         finally:
             self._loop_depth -= 1
 
+    def apply_havoc(self, h, lid, mods, smashed, induct, entry):
+        # a pre-Reset value the loop updates in place (a counter it decrements, a flag it may set) is pre-Reset state at every
+        # iteration: the symbol the summary puts in its place keeps standing for it
+        Engine.apply_havoc(self, h, lid, mods, smashed, induct, entry)
+        from .. import terms as _terms
+        from ..terms import term_of_lin, Lin as _Lin
+        for (oid, key), (n, ty, _terms_) in mods.items():
+            o, eo = h.objs.get(oid), entry.objs.get(oid)
+            if o is None or eo is None or o.weak or oid in smashed or ty is None or ty.kind != 'int':
+                continue
+            cell = o.cells.get(key)
+            if not cell or not isinstance(cell[1], tuple) or cell[1][0] != 'sym' or not str(cell[1][1]).startswith('hv:'):
+                continue
+            try:
+                init = entry.canon(mem.load_scalar(entry, eo.copy(), term_of_lin(_Lin(dict(key[0]), key[1])), ty))
+            except Exception:
+                continue
+            if stale_atoms(init):
+                _terms.OPAQUE_DEFS[cell[1][1]] = init
+
     def branch(self, st, v):
+        term = st.canon(v.t)       # (before the branch refines st with the outcome)
         t, f = Engine.branch(self, st, v)
         if t is not None and f is not None:
-            term = st.canon(v.t)
             bad = stale_atoms(term)
             if bad and len(self.extra['tainted_branches']) < 50:
                 self.extra['tainted_branches'].append((self.fn, short(term), [short(a) for a in bad[:3]]))
